@@ -285,6 +285,51 @@ func mutate(stream []byte, ps *container.Stream, m totMut, ckSize int) []byte {
 			pl = append(pl, p)
 		}
 		return rebuild(h, pl, true)
+	case "legacy-version":
+		// the reader still accepts format versions 0..5 (other header layouts, older variants of the codecs): a well-formed
+		// header of such a version in front of the blocks (valid version-6 blocks, damaged ones, or degenerate ones)
+		v := int(m.B) % 6
+		h := ps.Hdr
+		if m.C%3 == 0 {
+			h.Entropy = uint32(m.A) % 9 // any entropy codec: the legacy decoders of each
+		}
+		pl := allPayloads()
+		switch m.C % 4 {
+		case 1:
+			for _, p := range pl {
+				for k := 0; k < 4 && p.Len > 64; k++ {
+					bit := 24 + r.Intn(p.Len-24)
+					p.B[bit>>3] ^= 1 << uint(7-bit&7)
+				}
+			}
+		case 2:
+			pl = nil
+			for k := 0; k < 2; k++ {
+				L := 1 + r.Intn(60)
+				p := &container.Bits{}
+				p.Put(0, 8)
+				p.Put(uint64(L), 8)
+				if h.CkSize != 0 {
+					p.Put(r.U64(), 32)
+				}
+				raw := make([]byte, L)
+				r.Fill(raw)
+				if m.A%2 == 0 {
+					for i := 0; i < 4 && i < L; i++ {
+						raw[i] = 0
+					}
+				}
+				p.PutBits(raw, 0, 8*L)
+				pl = append(pl, p)
+			}
+		}
+		o := &container.Bits{}
+		container.WriteLegacyHeader(o, v, &h, len(pl))
+		for _, p := range pl {
+			container.WriteBlock(o, p.B, p.Len)
+		}
+		container.WriteEnd(o)
+		return o.B
 	case "degenerate-block":
 		// stream assembled from scratch: the seed's header (a chain of one or several transforms, entropy forced to NONE so that
 		// the stage input is raw in the payload, checksum kept or dropped) followed by blocks whose stored length is tiny
@@ -480,7 +525,7 @@ func c03(run *core.Run, replay string) {
 		{"seed-big-rolz", cfg("ROLZ", "NONE", 8<<20, 1, 0), "html", 5 << 20, S},
 	}
 	kinds := []string{"hdr-entropy", "hdr-transform", "hdr-blocksize", "hdr-blocksize-tight", "hdr-size", "hdr-version", "hdr-checksum-size", "len-prefix", "len-width", "mode", "skipflags", "stored-len",
-		"codec-header", "codec-header", "codec-header", "codec-header", "payload-random", "payload-random", "truncate", "dup-block", "drop-block", "swap-blocks", "garbage", "forged-copy-block", "random-bytes"}
+		"codec-header", "codec-header", "codec-header", "codec-header", "payload-random", "payload-random", "truncate", "dup-block", "drop-block", "swap-blocks", "garbage", "forged-copy-block", "random-bytes", "legacy-version", "legacy-version", "legacy-version", "legacy-version"}
 	var tcs []*totCase
 	per := run.Pick(3, 60)
 	for si := range seeds {
